@@ -1,20 +1,1061 @@
-//! Layer B (stub, replaced below)
+//! Layer B: the REAL `sylt` binary as a process, in a private scratch directory, with a
+//! STUB `lua` first on PATH. Used by C20 (driver contract) and by C16 (cross-process,
+//! unseeded-hash and environment variations).
+
+use crate::corpus::Corpus;
+use crate::exec::{self, execute, normalise, strip_ansi, ResultObs};
+use crate::gen::{self, Bias};
 use crate::json::J;
+use crate::props::{check_require, Violation};
+use crate::rng::{fnv64, splitmix64, tag, Rng};
+use crate::scenario::{Concrete, RenderPlan, SinkPlan, SIM_ROOT};
+use std::collections::{BTreeMap, BTreeSet};
+use std::io::{Read, Write};
+use std::path::Path;
+use std::process::{Command, Stdio};
+use std::sync::{Arc, Mutex};
+use std::time::{Duration, Instant};
 
 pub struct LayerBResult {
     pub coverage: J,
     pub violations: Vec<(String, J, u64)>,
 }
 
-pub fn run_c20(_tier: &str, _seed: u64) -> LayerBResult {
-    LayerBResult { coverage: J::obj(), violations: Vec::new() }
+pub fn sylt_bin() -> String {
+    std::env::var("SYLT_SIM_BIN").unwrap_or_else(|_| format!("{}/target/repo-bin/debug/sylt", crate::supervisor::verif_dir()))
 }
-pub fn run_c16_processes(_tier: &str, _seed: u64) -> LayerBResult {
-    LayerBResult { coverage: J::obj(), violations: Vec::new() }
-}
-pub fn replay(_doc: &J, _id: &str) -> i32 {
-    2
-}
+
+// ------------------------------------------------------------------------------------
+// the stub peer
+
+/// `lua` stub: drains stdin to EOF, stores it, then emits the planned stderr text and exit
+/// status. It never executes Lua. Plan comes from the environment.
 pub fn lua_stub_main() -> i32 {
+    let mode = std::env::var("SYLT_SIM_LUA_MODE").unwrap_or_default();
+    let mut buf = Vec::new();
+    if mode != "nodrain" {
+        let _ = std::io::stdin().read_to_end(&mut buf);
+    }
+    if let Ok(p) = std::env::var("SYLT_SIM_LUA_CAPTURE") {
+        let tmp = format!("{}.tmp", p);
+        if std::fs::write(&tmp, &buf).is_ok() {
+            let _ = std::fs::rename(&tmp, &p);
+        }
+    }
+    if let Ok(t) = std::env::var("SYLT_SIM_LUA_STDERR") {
+        if !t.is_empty() {
+            let _ = std::io::stderr().write_all(t.as_bytes());
+        }
+    }
+    std::env::var("SYLT_SIM_LUA_EXIT").ok().and_then(|v| v.parse().ok()).unwrap_or(0)
+}
+
+// ------------------------------------------------------------------------------------
+// cells
+
+#[derive(Clone, Debug, PartialEq)]
+pub struct Cell {
+    /// "run" | "file" | "stdout" | "help" | "noargs"
+    pub mode: String,
+    pub require: Option<String>,
+    pub no_std: bool,
+    /// for mode "file": O1-absent | O2-existing | O3-parent-missing | O4-is-directory | O5-component-is-file | O6-dev-full
+    pub target: String,
+    /// for mode "run": P1-ok | P2-stderr-exit1 | P3-stderr-exit0 | P4-silent-exit1
+    pub peer: String,
+    /// "present" | "main-missing"
+    pub input: String,
+}
+
+impl Cell {
+    pub fn to_json(&self) -> J {
+        J::obj()
+            .set("mode", J::s(&self.mode))
+            .set("require", self.require.as_ref().map(|s| J::s(s)).unwrap_or(J::Null))
+            .set("no_std", J::Bool(self.no_std))
+            .set("target", J::s(&self.target))
+            .set("peer", J::s(&self.peer))
+            .set("input", J::s(&self.input))
+    }
+    pub fn from_json(j: &J) -> Cell {
+        Cell {
+            mode: j.str_of("mode"),
+            require: j.get("require").and_then(|r| r.as_str()).map(|s| s.to_string()),
+            no_std: j.bool_of("no_std"),
+            target: j.str_of("target"),
+            peer: j.str_of("peer"),
+            input: j.str_of("input"),
+        }
+    }
+    pub fn label(&self) -> String {
+        format!(
+            "{}{}{}{}{}{}",
+            self.mode,
+            if self.mode == "file" { format!(":{}", self.target) } else { String::new() },
+            if self.mode == "run" { format!(":{}", self.peer) } else { String::new() },
+            if self.require.is_some() { "+require" } else { "" },
+            if self.no_std { "+no-std" } else { "" },
+            if self.input != "present" { "+main-missing" } else { "" }
+        )
+    }
+}
+
+pub fn all_cells() -> Vec<Cell> {
+    let mut out = Vec::new();
+    let flags: Vec<(Option<String>, bool)> = vec![(None, false), (Some("zz_ext".into()), false), (None, true), (Some("zz_ext.lua".into()), true)];
+    for (req, ns) in &flags {
+        for peer in ["P1-ok", "P2-stderr-exit1", "P3-stderr-exit0", "P4-silent-exit1"] {
+            out.push(Cell { mode: "run".into(), require: req.clone(), no_std: *ns, target: String::new(), peer: peer.into(), input: "present".into() });
+        }
+        for target in ["O1-absent", "O2-existing", "O3-parent-missing", "O4-is-directory", "O5-component-is-file", "O6-dev-full"] {
+            out.push(Cell { mode: "file".into(), require: req.clone(), no_std: *ns, target: target.into(), peer: String::new(), input: "present".into() });
+        }
+        out.push(Cell { mode: "stdout".into(), require: req.clone(), no_std: *ns, target: String::new(), peer: String::new(), input: "present".into() });
+    }
+    for mode in ["run", "file", "stdout"] {
+        out.push(Cell {
+            mode: mode.into(),
+            require: None,
+            no_std: false,
+            target: if mode == "file" { "O2-existing".into() } else { String::new() },
+            peer: if mode == "run" { "P1-ok".into() } else { String::new() },
+            input: "main-missing".into(),
+        });
+    }
+    out.push(Cell { mode: "help".into(), require: None, no_std: false, target: String::new(), peer: String::new(), input: "present".into() });
+    out.push(Cell { mode: "noargs".into(), require: None, no_std: false, target: String::new(), peer: String::new(), input: "present".into() });
+    out
+}
+
+#[derive(Clone, Debug, Default)]
+pub struct ProcObs {
+    pub exit: Option<i32>,
+    pub signal: bool,
+    pub timed_out: bool,
+    pub stdout: Vec<u8>,
+    pub stderr: Vec<u8>,
+    /// relative path → "dir" | "file:<len>:<fnv>"
+    pub tree_before: BTreeMap<String, String>,
+    pub tree_after: BTreeMap<String, String>,
+    pub peer_stdin: Option<Vec<u8>>,
+    pub target_bytes: Option<Vec<u8>>,
+}
+
+impl ProcObs {
+    pub fn history(&self, root: &str) -> String {
+        let mut s = String::new();
+        s.push_str(&format!("EXIT {:?} signal={} timeout={}\n", self.exit, self.signal, self.timed_out));
+        s.push_str(&format!("STDOUT {} {:x}\n", self.stdout.len(), fnv64(normalise(root, &String::from_utf8_lossy(&self.stdout)).as_bytes())));
+        s.push_str(&format!("STDERR {} {:x}\n", self.stderr.len(), fnv64(strip_thread_id(&normalise(root, &String::from_utf8_lossy(&self.stderr))).as_bytes())));
+        for (k, v) in &self.tree_after {
+            if self.tree_before.get(k) != Some(v) {
+                s.push_str(&format!("FS-DIFF {} {:?} -> {}\n", k, self.tree_before.get(k), v));
+            }
+        }
+        for k in self.tree_before.keys() {
+            if !self.tree_after.contains_key(k) {
+                s.push_str(&format!("FS-DIFF {} removed\n", k));
+            }
+        }
+        match &self.peer_stdin {
+            Some(b) => s.push_str(&format!("PEER-STDIN {} {:x}\n", b.len(), fnv64(b))),
+            None => s.push_str("PEER-STDIN none\n"),
+        }
+        s
+    }
+}
+
+/// Rust's panic message names the OS thread id: `thread 'main' (12345) panicked at`.
+fn strip_thread_id(s: &str) -> String {
+    let mut out = String::new();
+    let mut rest = s;
+    while let Some(i) = rest.find("thread '") {
+        out.push_str(&rest[..i]);
+        let after = &rest[i..];
+        if let Some(p) = after.find("' (") {
+            let tail = &after[p + 3..];
+            let digits = tail.chars().take_while(|c| c.is_ascii_digit()).count();
+            if digits > 0 && tail[digits..].starts_with(')') {
+                out.push_str(&after[..p + 3]);
+                out.push_str("TID");
+                rest = &tail[digits..];
+                continue;
+            }
+        }
+        out.push_str("thread '");
+        rest = &after[8..];
+    }
+    out.push_str(rest);
+    out
+}
+
+fn tree(dir: &Path, base: &Path, out: &mut BTreeMap<String, String>) {
+    let mut entries: Vec<_> = match std::fs::read_dir(dir) {
+        Ok(rd) => rd.flatten().map(|e| e.path()).collect(),
+        Err(_) => return,
+    };
+    entries.sort();
+    for p in entries {
+        let rel = p.strip_prefix(base).unwrap().display().to_string();
+        if p.is_dir() {
+            out.insert(rel, "dir".into());
+            tree(&p, base, out);
+        } else {
+            let b = std::fs::read(&p).unwrap_or_default();
+            out.insert(rel, format!("file:{}:{:x}", b.len(), fnv64(&b)));
+        }
+    }
+}
+
+pub struct Program {
+    /// files with paths under SIM_ROOT
+    pub files: BTreeMap<String, String>,
+    pub main: String,
+    pub label: String,
+    pub std_free: bool,
+}
+
+/// What the library (layer A, in-process, same real files) says about program + flags.
+pub struct Expected {
+    pub accepted: bool,
+    pub bytes: Vec<u8>,
+    pub rendered_errors: Vec<String>,
+    pub panicked: bool,
+}
+
+fn expected_for(prog: &Program, root: &str, require: &Option<String>, no_std: bool, main_missing: bool) -> Expected {
+    let mut c = Concrete::new(&prog.main);
+    c.files = prog.files.clone();
+    if main_missing {
+        c.files.remove(&prog.main);
+    }
+    c.require = require.clone();
+    c.no_std = no_std;
+    c.sink = SinkPlan::Plain;
+    c.render = RenderPlan::default();
+    c.hash_seed = 0;
+    exec::set_root(root);
+    let out = execute(&c);
+    match &out.result {
+        ResultObs::Ok => Expected { accepted: true, bytes: out.sink_bytes.clone(), rendered_errors: vec![], panicked: false },
+        ResultObs::Err(es) => Expected {
+            accepted: false,
+            bytes: vec![],
+            rendered_errors: es.iter().map(|e| e.rendered.clone().unwrap_or_default()).collect(),
+            panicked: false,
+        },
+        ResultObs::Panicked => Expected { accepted: false, bytes: vec![], rendered_errors: vec![], panicked: true },
+    }
+}
+
+pub struct Runner {
+    pub scratch: String,
+    pub bin: String,
+    pub path_env: String,
+}
+
+impl Runner {
+    pub fn new(scratch: &str) -> Runner {
+        let bindir = format!("{}/stubbin", scratch);
+        let _ = std::fs::create_dir_all(&bindir);
+        let lua = format!("{}/lua", bindir);
+        let _ = std::fs::remove_file(&lua);
+        let exe = std::env::current_exe().expect("current_exe");
+        let _ = std::os::unix::fs::symlink(&exe, &lua);
+        Runner { scratch: scratch.to_string(), bin: sylt_bin(), path_env: format!("{}:/usr/bin:/bin", bindir) }
+    }
+
+    /// Lays the program out in a fresh directory and returns (root, project dir).
+    pub fn layout(&self, prog: &Program, k: &str, main_missing: bool) -> String {
+        let root = format!("{}/{}", self.scratch, k);
+        let _ = std::fs::remove_dir_all(&root);
+        let _ = std::fs::create_dir_all(&root);
+        for (p, t) in &prog.files {
+            if main_missing && *p == prog.main {
+                continue;
+            }
+            let real = format!("{}{}", root, p.strip_prefix(SIM_ROOT).unwrap_or(p));
+            if let Some(d) = Path::new(&real).parent() {
+                let _ = std::fs::create_dir_all(d);
+            }
+            let _ = std::fs::write(&real, t);
+        }
+        root
+    }
+
+    pub fn run_cell(&self, prog: &Program, cell: &Cell, root: &str, extra_env: &[(String, String)]) -> ProcObs {
+        let main_real = format!("{}{}", root, prog.main.strip_prefix(SIM_ROOT).unwrap_or(&prog.main));
+        let outdir = format!("{}/out", root);
+        let _ = std::fs::remove_dir_all(&outdir);
+        let _ = std::fs::create_dir_all(&outdir);
+        let capture = format!("{}.peer-stdin", root);
+        let _ = std::fs::remove_file(&capture);
+        let mut args: Vec<String> = Vec::new();
+        let mut target_path: Option<String> = None;
+        match cell.mode.as_str() {
+            "help" => args.push("--help".into()),
+            "noargs" => {}
+            m => {
+                if let Some(r) = &cell.require {
+                    args.push("--require".into());
+                    args.push(r.clone());
+                }
+                if cell.no_std {
+                    args.push("--no-std".into());
+                }
+                if m == "stdout" {
+                    args.push("-o".into());
+                    args.push("-".into());
+                }
+                if m == "file" {
+                    let t = match cell.target.as_str() {
+                        "O1-absent" => format!("{}/prog.lua", outdir),
+                        "O2-existing" => {
+                            let p = format!("{}/prog.lua", outdir);
+                            let _ = std::fs::write(&p, b"SENTINEL: previous contents of the output file\n");
+                            p
+                        }
+                        "O3-parent-missing" => format!("{}/nodir/prog.lua", outdir),
+                        "O4-is-directory" => {
+                            let p = format!("{}/adir", outdir);
+                            let _ = std::fs::create_dir_all(&p);
+                            p
+                        }
+                        "O5-component-is-file" => {
+                            let p = format!("{}/afile", outdir);
+                            let _ = std::fs::write(&p, b"i am a file\n");
+                            format!("{}/prog.lua", p)
+                        }
+                        _ => "/dev/full".to_string(),
+                    };
+                    args.push("-o".into());
+                    args.push(t.clone());
+                    target_path = Some(t);
+                }
+                args.push(main_real.clone());
+            }
+        }
+        let mut before = BTreeMap::new();
+        tree(Path::new(root), Path::new(root), &mut before);
+
+        let (stderr_text, exit_code) = match cell.peer.as_str() {
+            "P2-stderr-exit1" => ("lua: stdin:1: attempt to call a nil value (global 'zz')\nstack traceback:\n\t[C]: in ?\n", 1),
+            "P3-stderr-exit0" => ("lua: stdin:7: Assert failed!\n", 0),
+            "P4-silent-exit1" => ("", 1),
+            _ => ("", 0),
+        };
+        let mut cmd = Command::new("timeout");
+        cmd.arg("-s").arg("KILL").arg("120").arg(&self.bin).args(&args);
+        cmd.current_dir(root)
+            .env_clear()
+            .env("PATH", &self.path_env)
+            .env("HOME", root)
+            .env("SYLT_SIM_LUA_CAPTURE", &capture)
+            .env("SYLT_SIM_LUA_STDERR", stderr_text)
+            .env("SYLT_SIM_LUA_EXIT", exit_code.to_string())
+            .stdin(Stdio::null())
+            .stdout(Stdio::piped())
+            .stderr(Stdio::piped());
+        for (k, v) in extra_env {
+            cmd.env(k, v);
+        }
+        let mut obs = ProcObs::default();
+        obs.tree_before = before;
+        match cmd.output() {
+            Ok(o) => {
+                obs.exit = o.status.code();
+                obs.signal = o.status.code().is_none();
+                obs.timed_out = matches!(o.status.code(), Some(137) | Some(124));
+                obs.stdout = o.stdout;
+                obs.stderr = o.stderr;
+            }
+            Err(e) => {
+                obs.stderr = format!("spawn failed: {}", e).into_bytes();
+            }
+        }
+        if cell.mode == "run" {
+            // the stub stores what it was fed after draining stdin; give it a moment to finish
+            let t0 = Instant::now();
+            while t0.elapsed() < Duration::from_secs(5) {
+                if Path::new(&capture).exists() {
+                    break;
+                }
+                std::thread::sleep(Duration::from_millis(2));
+            }
+            obs.peer_stdin = std::fs::read(&capture).ok();
+            let _ = std::fs::remove_file(&capture);
+        }
+        tree(Path::new(root), Path::new(root), &mut obs.tree_after);
+        if let Some(t) = &target_path {
+            if t != "/dev/full" && Path::new(t).is_file() {
+                obs.target_bytes = std::fs::read(t).ok();
+            }
+        }
+        obs
+    }
+}
+
+fn v(clause: &str, class: &str, detail: String) -> Violation {
+    Violation { prop: "C20".into(), clause: clause.into(), class: class.into(), detail }
+}
+
+fn is_subsequence(needle: &[String], hay: &[String]) -> Option<String> {
+    let mut i = 0;
+    for n in needle {
+        let mut found = false;
+        while i < hay.len() {
+            if hay[i] == *n {
+                found = true;
+                i += 1;
+                break;
+            }
+            i += 1;
+        }
+        if !found {
+            return Some(n.clone());
+        }
+    }
+    None
+}
+
+pub struct CellVerdict {
+    pub violations: Vec<Violation>,
+    pub observations: Vec<String>,
+}
+
+/// The C20 oracle for one process run.
+pub fn judge(cell: &Cell, exp: &Expected, obs: &ProcObs, root: &str, preamble: &str, exp_plain: Option<&Expected>) -> CellVerdict {
+    let mut vs = Vec::new();
+    let mut notes = Vec::new();
+    let label = cell.label();
+    if obs.timed_out {
+        vs.push(v("process-hang", &cell.mode, format!("[{}] the sylt process did not finish within 120 s", label)));
+        return CellVerdict { violations: vs, observations: notes };
+    }
+    let exit = obs.exit.unwrap_or(-1);
+    match cell.mode.as_str() {
+        "help" => {
+            if exit != 0 {
+                vs.push(v("exit-status", "help", format!("--help exited with {}", exit)));
+            }
+            return CellVerdict { violations: vs, observations: notes };
+        }
+        "noargs" => {
+            if exit == 0 {
+                vs.push(v("exit-status", "noargs", "no arguments, but exit status 0".into()));
+            }
+            return CellVerdict { violations: vs, observations: notes };
+        }
+        _ => {}
+    }
+    if exp.panicked {
+        // C07 territory; the driver contract has nothing to compare against
+        notes.push("library-panicked".into());
+        return CellVerdict { violations: vs, observations: notes };
+    }
+    // outside the quantifier: recorded, never judged
+    if cell.mode == "file" && cell.target == "O6-dev-full" {
+        notes.push(format!("O6-dev-full exit={}", exit));
+        return CellVerdict { violations: vs, observations: notes };
+    }
+    if cell.mode == "run" && cell.peer == "P4-silent-exit1" {
+        notes.push(format!("P4-silent-peer-failure exit={}", exit));
+        // still: the peer must have been fed the right program
+        if exp.accepted {
+            if let Some(b) = &obs.peer_stdin {
+                if *b != exp.bytes {
+                    vs.push(v("peer-input", "run", format!("[{}] lua was fed {} bytes, the compiled program is {} bytes", label, b.len(), exp.bytes.len())));
+                }
+            }
+        }
+        return CellVerdict { violations: vs, observations: notes };
+    }
+
+    let target_ok = cell.mode != "file" || matches!(cell.target.as_str(), "O1-absent" | "O2-existing");
+    let peer_ok = cell.mode != "run" || cell.peer == "P1-ok";
+    let should_succeed = exp.accepted && target_ok && peer_ok;
+
+    // B1 exit status
+    if should_succeed && exit != 0 {
+        vs.push(v("exit-status", "nonzero-on-success", format!("[{}] compilation (and execution) succeeded but the exit status is {}", label, exit)));
+    }
+    if !should_succeed && exit == 0 {
+        let why = if !exp.accepted {
+            "the program is rejected"
+        } else if !peer_ok {
+            "execution failed (lua reported an error)"
+        } else {
+            "the output file cannot be created"
+        };
+        vs.push(v("exit-status", if !exp.accepted { "zero-on-rejected" } else if !peer_ok { "zero-on-runtime-failure" } else { "zero-on-unwritable-target" }, format!("[{}] {} but the exit status is 0", label, why)));
+    }
+
+    let all_out = format!("{}\n{}", String::from_utf8_lossy(&obs.stdout), String::from_utf8_lossy(&obs.stderr));
+    let all_out = normalise(root, &strip_ansi(&all_out));
+    let out_lines: Vec<String> = all_out.lines().map(|l| l.trim_end().to_string()).collect();
+
+    // B2 every error is printed, in order
+    if !exp.accepted {
+        let mut want: Vec<String> = Vec::new();
+        for r in &exp.rendered_errors {
+            for l in r.lines() {
+                let l = l.trim_end();
+                if !l.is_empty() {
+                    want.push(l.to_string());
+                }
+            }
+        }
+        if cell.mode == "stdout" {
+            // in -o - mode the program and the errors share stdout; nothing else may be on it
+        }
+        if let Some(missing) = is_subsequence(&want, &out_lines) {
+            vs.push(v(
+                "errors-not-printed",
+                &cell.mode,
+                format!("[{}] the program is rejected with {} error(s) but this line of their rendering is not in the output (or out of order): {:?}", label, exp.rendered_errors.len(), missing),
+            ));
+        }
+    }
+    if exp.accepted && cell.mode == "run" && !peer_ok {
+        let text = if cell.peer.starts_with("P2") { "attempt to call a nil value" } else { "Assert failed!" };
+        if !all_out.contains(text) {
+            vs.push(v("errors-not-printed", "lua-stderr", format!("[{}] lua's error text is not in the output", label)));
+        }
+    }
+
+    // B3 all-or-nothing file
+    if cell.mode == "file" {
+        let changed: Vec<String> = {
+            let mut ch = Vec::new();
+            for (k, val) in &obs.tree_after {
+                if obs.tree_before.get(k) != Some(val) {
+                    ch.push(k.clone());
+                }
+            }
+            for k in obs.tree_before.keys() {
+                if !obs.tree_after.contains_key(k) {
+                    ch.push(format!("{} (removed)", k));
+                }
+            }
+            ch
+        };
+        if exit == 0 {
+            match &obs.target_bytes {
+                Some(b) if *b == exp.bytes => {}
+                Some(b) => vs.push(v(
+                    "file-incomplete",
+                    &cell.target,
+                    format!("[{}] exit status 0 but FILE holds {} bytes, the complete program is {} bytes", label, b.len(), exp.bytes.len()),
+                )),
+                None => vs.push(v("file-incomplete", &cell.target, format!("[{}] exit status 0 but FILE does not exist", label))),
+            }
+            let unexpected: Vec<&String> = changed.iter().filter(|c| c.as_str() != "out/prog.lua").collect();
+            if !unexpected.is_empty() {
+                vs.push(v("stray-files", &cell.target, format!("[{}] besides FILE these paths changed: {:?}", label, unexpected)));
+            }
+        } else if !changed.is_empty() {
+            vs.push(v(
+                "file-touched-on-failure",
+                &cell.target,
+                format!("[{}] exit status {} but the directory tree changed: {:?} (FILE must be left untouched)", label, exit, changed),
+            ));
+        }
+    } else {
+        // run / stdout modes create nothing
+        let changed: Vec<&String> = obs.tree_after.iter().filter(|(k, val)| obs.tree_before.get(*k) != Some(*val)).map(|(k, _)| k).collect();
+        if !changed.is_empty() {
+            vs.push(v("stray-files", &cell.mode, format!("[{}] files changed: {:?}", label, changed)));
+        }
+    }
+
+    // B4 stdout carries exactly the bytes -o FILE writes
+    if cell.mode == "stdout" && exp.accepted {
+        if obs.stdout != exp.bytes {
+            let common = obs.stdout.iter().zip(exp.bytes.iter()).take_while(|(a, b)| a == b).count();
+            vs.push(v(
+                "stdout-differs-from-file",
+                "-",
+                format!("[{}] -o - wrote {} bytes to stdout, -o FILE writes {} bytes (first difference at byte {})", label, obs.stdout.len(), exp.bytes.len(), common),
+            ));
+        }
+    }
+    if cell.mode == "stdout" && !exp.accepted {
+        // nothing of the program may precede the errors
+        if obs.stdout.starts_with(b"-- Begin Sylt preamble") || (preamble.len() > 40 && obs.stdout.starts_with(&preamble.as_bytes()[..40])) {
+            vs.push(v("partial-output-on-failure", "stdout", format!("[{}] the program is rejected but Lua was written to stdout", label)));
+        }
+    }
+
+    // B5 run mode feeds the same program
+    if cell.mode == "run" {
+        match &obs.peer_stdin {
+            Some(b) => {
+                if exp.accepted && *b != exp.bytes {
+                    let common = b.iter().zip(exp.bytes.iter()).take_while(|(a, c)| a == c).count();
+                    vs.push(v(
+                        "peer-input",
+                        "run",
+                        format!("[{}] lua was fed {} bytes, -o FILE writes {} bytes (first difference at byte {})", label, b.len(), exp.bytes.len(), common),
+                    ));
+                }
+                if !exp.accepted && !b.is_empty() {
+                    vs.push(v("partial-output-on-failure", "run", format!("[{}] the program is rejected but lua was fed {} bytes", label, b.len())));
+                }
+            }
+            None => {
+                if exp.accepted {
+                    vs.push(v("peer-input", "not-started", format!("[{}] the program is accepted but lua never received it", label)));
+                }
+            }
+        }
+    }
+
+    // B6 --require on the real outputs
+    if let (Some(m), Some(plain)) = (&cell.require, exp_plain) {
+        if exp.accepted && plain.accepted && exit == 0 {
+            let got: Option<&Vec<u8>> = match cell.mode.as_str() {
+                "file" => obs.target_bytes.as_ref(),
+                "stdout" => Some(&obs.stdout),
+                "run" => obs.peer_stdin.as_ref(),
+                _ => None,
+            };
+            if let Some(g) = got {
+                vs.extend(check_require("C20", m, g, &plain.bytes, preamble));
+            }
+        }
+        if exp.accepted != plain.accepted {
+            vs.push(v("require", "verdict", format!("[{}] --require changes accept/reject", label)));
+        }
+    }
+    CellVerdict { violations: vs, observations: notes }
+}
+
+// ------------------------------------------------------------------------------------
+// program sampling
+
+pub fn sample_program(seed: u64, corpus: &Corpus) -> Program {
+    let mut r = Rng::sub(seed, "layerb-program");
+    // a mix: fault-free and faulted corpus programs, generated projects, long literals
+    let mut stats = crate::props::Stats::default();
+    let (sc, c) = crate::worker::gen_screened(seed, corpus, Bias::Sink, &mut stats);
+    let mut files = c.files.clone();
+    for p in &c.io_errors {
+        files.remove(p);
+    }
+    // keep the project small on disk
+    if files.len() > 12 {
+        let keep: BTreeSet<String> = files.keys().take(12).cloned().chain(std::iter::once(c.main.clone())).collect();
+        files.retain(|k, _| keep.contains(k));
+    }
+    let _ = r.next();
+    Program { std_free: sc.family == "generated-project", label: format!("{}+{}faults", sc.family, sc.faults.len()), files, main: c.main.clone() }
+}
+
+// ------------------------------------------------------------------------------------
+// C20 batch
+
+struct Agg {
+    cells_run: u64,
+    programs: u64,
+    accepted_programs: u64,
+    rejected_programs: u64,
+    per_cell: BTreeMap<String, u64>,
+    observations: BTreeMap<String, u64>,
+    violations: BTreeMap<String, (J, u64)>,
+    distinct_pairs: BTreeSet<u64>,
+    rerun_checked: u64,
+    rerun_mismatch: u64,
+    sample: Option<J>,
+    no_std_equiv_checked: u64,
+}
+
+fn layer_b_doc(prop: &str, v: &Violation, prog: &Program, cell: &Cell, obs: &ProcObs, root: &str, batch_seed: u64, index: u64) -> J {
+    let mut files = J::obj();
+    for (k, t) in &prog.files {
+        files.put(k, J::s(t));
+    }
+    J::obj()
+        .set("property", J::s(prop))
+        .set("clause", J::s(&v.clause))
+        .set("class", J::s(&v.class))
+        .set("detail", J::s(&v.detail))
+        .set("verif_seed", J::u(batch_seed))
+        .set("index", J::u(index))
+        .set("minimised", J::Bool(false))
+        .set("layer_b", J::obj().set("files", files).set("main", J::s(&prog.main)).set("cell", cell.to_json()).set("program_label", J::s(&prog.label)))
+        .set("history", J::Arr(obs.history(root).lines().map(|l| J::s(l)).collect()))
+}
+
+pub fn run_c20(tier: &str, batch_seed: u64) -> LayerBResult {
+    let n_programs: u64 = std::env::var("SYLT_SIM_LAYERB_PROGRAMS").ok().and_then(|v| v.parse().ok()).unwrap_or(if tier == "quick" { 240 } else { 12_000 });
+    if !Path::new(&sylt_bin()).exists() {
+        eprintln!("sylt-sim: the sylt binary {} does not exist (run /verif/check, which builds it)", sylt_bin());
+        let mut cov = J::obj();
+        cov.put("harness.layer_b_binary_missing", J::u(1));
+        return LayerBResult { coverage: cov, violations: vec![("harness/layer-b-binary-missing".into(), J::obj().set("clause", J::s("harness")).set("class", J::s("layer-b-binary-missing")).set("detail", J::s("sylt binary not built")), 1)] };
+    }
+    let t0 = Instant::now();
+    let agg = Arc::new(Mutex::new(Agg {
+        cells_run: 0,
+        programs: 0,
+        accepted_programs: 0,
+        rejected_programs: 0,
+        per_cell: BTreeMap::new(),
+        observations: BTreeMap::new(),
+        violations: BTreeMap::new(),
+        distinct_pairs: BTreeSet::new(),
+        rerun_checked: 0,
+        rerun_mismatch: 0,
+        sample: None,
+        no_std_equiv_checked: 0,
+    }));
+    let threads = 16u64;
+    let cells = Arc::new(all_cells());
+    let preamble = Arc::new(crate::props::preamble_text());
+    let mut hs = Vec::new();
+    for t in 0..threads {
+        let agg = agg.clone();
+        let cells = cells.clone();
+        let preamble = preamble.clone();
+        hs.push(std::thread::Builder::new().stack_size(256 << 20).spawn(move || {
+            exec::install_panic_hook();
+            let corpus = crate::corpus::load();
+            let scratch = format!("{}/{}-layerb-t{}", crate::supervisor::scratch_base(), std::process::id(), t);
+            let _ = std::fs::create_dir_all(&scratch);
+            let runner = Runner::new(&scratch);
+            let mut i = t;
+            while i < n_programs {
+                let seed = splitmix64(batch_seed ^ tag("C20-layerB") ^ splitmix64(i));
+                let prog = sample_program(seed, &corpus);
+                let root = runner.layout(&prog, "p", false);
+                let mut exp_cache: BTreeMap<(Option<String>, bool, bool), Expected> = BTreeMap::new();
+                let mut local_cells = 0u64;
+                let mut accepted_plain = false;
+                let mut exit_by_flags: BTreeMap<(String, String, String, bool), i32> = BTreeMap::new();
+                for (ci, cell) in cells.iter().enumerate() {
+                    let main_missing = cell.input == "main-missing";
+                    let root_used = if main_missing { runner.layout(&prog, "pm", true) } else { root.clone() };
+                    let key = (cell.require.clone(), cell.no_std, main_missing);
+                    if !exp_cache.contains_key(&key) {
+                        let e = expected_for(&prog, &root_used, &cell.require, cell.no_std, main_missing);
+                        exp_cache.insert(key.clone(), e);
+                    }
+                    let plain_key = (None, cell.no_std, main_missing);
+                    if !exp_cache.contains_key(&plain_key) {
+                        let e = expected_for(&prog, &root_used, &None, cell.no_std, main_missing);
+                        exp_cache.insert(plain_key.clone(), e);
+                    }
+                    let obs = runner.run_cell(&prog, cell, &root_used, &[]);
+                    local_cells += 1;
+                    let exp = &exp_cache[&key];
+                    if ci == 0 {
+                        accepted_plain = exp.accepted;
+                    }
+                    let verdict = judge(cell, exp, &obs, &root_used, &preamble, exp_cache.get(&plain_key));
+                    // determinism of layer B itself: a sample of cells is run twice
+                    let rerun = (seed ^ ci as u64) % 8 == 0;
+                    let mut mismatch = false;
+                    if rerun {
+                        let obs2 = runner.run_cell(&prog, cell, &root_used, &[]);
+                        mismatch = obs.history(&root_used) != obs2.history(&root_used);
+                        if mismatch && std::env::var("SYLT_SIM_DEBUG").is_ok() {
+                            eprintln!("LAYER-B MISMATCH [{}] {}\n--- first\n{}--- second\n{}", cell.label(), prog.label, obs.history(&root_used), obs2.history(&root_used));
+                        }
+                    }
+                    if let Some(code) = obs.exit {
+                        if cell.input == "present" && cell.require.is_none() {
+                            exit_by_flags.insert((cell.mode.clone(), cell.target.clone(), cell.peer.clone(), cell.no_std), code);
+                        }
+                    }
+                    let mut a = agg.lock().unwrap();
+                    a.cells_run += 1;
+                    *a.per_cell.entry(cell.label()).or_insert(0) += 1;
+                    a.distinct_pairs.insert(fnv64(format!("{}|{}", seed, cell.label()).as_bytes()));
+                    for n in verdict.observations {
+                        *a.observations.entry(n).or_insert(0) += 1;
+                    }
+                    if rerun {
+                        a.rerun_checked += 1;
+                        if mismatch {
+                            a.rerun_mismatch += 1;
+                        }
+                    }
+                    if a.sample.is_none() && cell.mode == "file" && cell.target == "O2-existing" && !exp.accepted && prog.files.len() <= 2 {
+                        a.sample = Some(layer_b_doc("C20", &Violation { prop: "C20".into(), clause: "sample".into(), class: "-".into(), detail: "a sampled layer-B cell (no violation)".into() }, &prog, cell, &obs, &root_used, batch_seed, i));
+                    }
+                    for vv in verdict.violations {
+                        let id = vv.id();
+                        let doc = layer_b_doc("C20", &vv, &prog, cell, &obs, &root_used, batch_seed, i);
+                        match a.violations.get_mut(&id) {
+                            Some((old, n)) => {
+                                *n += 1;
+                                if i < old.u64_of("index") {
+                                    *old = doc;
+                                }
+                            }
+                            None => {
+                                a.violations.insert(id, (doc, 1));
+                            }
+                        }
+                    }
+                }
+                // --no-std changes nothing for programs that do not use the standard library
+                let mut nostd_violation: Option<Violation> = None;
+                if prog.std_free {
+                    for ((mode, target, peer, ns), code) in &exit_by_flags {
+                        if *ns {
+                            continue;
+                        }
+                        if let Some(code2) = exit_by_flags.get(&(mode.clone(), target.clone(), peer.clone(), true)) {
+                            if (*code == 0) != (*code2 == 0) {
+                                nostd_violation = Some(v("no-std", "exit-status", format!("a program that does not use the standard library exits with {} normally and {} with --no-std ({} {} {})", code, code2, mode, target, peer)));
+                            }
+                        }
+                    }
+                }
+                let mut a = agg.lock().unwrap();
+                a.programs += 1;
+                if accepted_plain {
+                    a.accepted_programs += 1;
+                } else {
+                    a.rejected_programs += 1;
+                }
+                if prog.std_free {
+                    a.no_std_equiv_checked += 1;
+                }
+                if let Some(vv) = nostd_violation {
+                    let cell = Cell { mode: "file".into(), require: None, no_std: true, target: "O1-absent".into(), peer: String::new(), input: "present".into() };
+                    let doc = layer_b_doc("C20", &vv, &prog, &cell, &ProcObs::default(), &root, batch_seed, i);
+                    a.violations.entry(vv.id()).or_insert((doc, 0)).1 += 1;
+                }
+                let _ = local_cells;
+                drop(a);
+                i += threads;
+            }
+            let _ = std::fs::remove_dir_all(&scratch);
+        }).unwrap());
+    }
+    for h in hs {
+        let _ = h.join();
+    }
+    let a = agg.lock().unwrap();
+    let mut per_cell = J::obj();
+    for (k, n) in &a.per_cell {
+        per_cell.put(k, J::u(*n));
+    }
+    let mut observations = J::obj();
+    for (k, n) in &a.observations {
+        observations.put(k, J::u(*n));
+    }
+    let mut cov = J::obj()
+        .set("add_evaluations", J::u(a.cells_run))
+        .set("add_distinct", J::u(a.distinct_pairs.len() as u64))
+        .set(
+            "layer_b",
+            J::obj()
+                .set("programs", J::u(a.programs))
+                .set("programs_accepted", J::u(a.accepted_programs))
+                .set("programs_rejected", J::u(a.rejected_programs))
+                .set("process_runs", J::u(a.cells_run + a.rerun_checked))
+                .set("cells_per_program", J::u(cells.len() as u64))
+                .set("cells", per_cell)
+                .set("rerun_determinism_checked", J::u(a.rerun_checked))
+                .set("rerun_determinism_mismatches", J::u(a.rerun_mismatch))
+                .set("std_free_programs_compared_with_no_std", J::u(a.no_std_equiv_checked))
+                .set("wall_s", J::Num((t0.elapsed().as_secs_f64() * 10.0).round() / 10.0))
+                .set("binary", J::s(&sylt_bin())),
+        )
+        .set("observations_outside_quantifier", observations);
+    if let Some(s) = &a.sample {
+        cov.put("layer_b_sample", s.clone());
+    }
+    let mut violations: Vec<(String, J, u64)> = a.violations.iter().map(|(k, (d, n))| (k.clone(), d.clone(), *n)).collect();
+    if a.rerun_mismatch > 0 {
+        violations.push((
+            "harness/layer-b-nondeterministic".into(),
+            J::obj().set("clause", J::s("harness")).set("class", J::s("layer-b-nondeterministic")).set("detail", J::s("a layer-B cell gave two different histories when run twice")),
+            a.rerun_mismatch,
+        ));
+    }
+    LayerBResult { coverage: cov, violations }
+}
+
+pub fn replay(doc: &J, id: &str) -> i32 {
+    let lb = match doc.get("layer_b") {
+        Some(l) => l,
+        None => return 2,
+    };
+    let prop = doc.str_of("property");
+    let mut files = BTreeMap::new();
+    if let Some(o) = lb.get("files").and_then(|f| f.as_obj()) {
+        for (k, t) in o {
+            files.insert(k.clone(), t.as_str().unwrap_or("").to_string());
+        }
+    }
+    let prog = Program { files, main: lb.str_of("main"), label: lb.str_of("program_label"), std_free: false };
+    let scratch = format!("{}/{}-replayb", crate::supervisor::scratch_base(), std::process::id());
+    let _ = std::fs::create_dir_all(&scratch);
+    exec::install_panic_hook();
+    let runner = Runner::new(&scratch);
+    let code;
+    if prop == "C16" {
+        code = replay_c16(doc, &prog, &runner, id);
+    } else {
+        let cell = Cell::from_json(lb.get("cell").unwrap_or(&J::obj()));
+        let main_missing = cell.input == "main-missing";
+        let root = runner.layout(&prog, "p", main_missing);
+        let exp = expected_for(&prog, &root, &cell.require, cell.no_std, main_missing);
+        let plain = expected_for(&prog, &root, &None, cell.no_std, main_missing);
+        let obs = runner.run_cell(&prog, &cell, &root, &[]);
+        let verdict = judge(&cell, &exp, &obs, &root, &crate::props::preamble_text(), Some(&plain));
+        print!("{}", obs.history(&root));
+        match verdict.violations.iter().find(|x| x.id() == id) {
+            Some(x) => {
+                println!("REPRODUCED {}", x.id());
+                println!("{}", x.detail);
+                println!("VIOLATION property={} replay=<this file>", prop);
+                code = 1;
+            }
+            None => {
+                println!("NOT-REPRODUCED {}", id);
+                code = 0;
+            }
+        }
+    }
+    let _ = std::fs::remove_dir_all(&scratch);
+    code
+}
+
+// ------------------------------------------------------------------------------------
+// C16 at the process level: unseeded hashing (real entropy per process), environment, cwd
+
+const ENVS: &[&[(&str, &str)]] = &[
+    &[],
+    &[("NO_COLOR", "1"), ("TERM", "dumb")],
+    &[("TERM", "xterm-256color"), ("LANG", "sv_SE.UTF-8"), ("TZ", "Pacific/Kiritimati")],
+    &[("RUST_BACKTRACE", "1"), ("LANG", "C")],
+    &[("CLICOLOR_FORCE", "1"), ("HOME", "/nonexistent")],
+    &[("SYLT_VERIF_HASH_SEED", "1")],
+    &[("SYLT_VERIF_HASH_SEED", "18446744073709551615")],
+];
+
+fn c16_observe(runner: &Runner, prog: &Program, root: &str, rep: usize) -> String {
+    let cell = Cell { mode: "file".into(), require: None, no_std: false, target: "O1-absent".into(), peer: String::new(), input: "present".into() };
+    let env: Vec<(String, String)> = ENVS[rep % ENVS.len()].iter().map(|(k, v)| (k.to_string(), v.to_string())).collect();
+    let obs = runner.run_cell(prog, &cell, root, &env);
+    let out = normalise(root, &strip_ansi(&String::from_utf8_lossy(&obs.stdout)));
+    format!(
+        "exit={:?}\nfile={:?}\nstdout:\n{}",
+        obs.exit,
+        obs.target_bytes.as_ref().map(|b| (b.len(), fnv64(b))),
+        out
+    )
+}
+
+fn replay_c16(doc: &J, prog: &Program, runner: &Runner, id: &str) -> i32 {
+    let reps = doc.get("layer_b").map(|l| l.u64_of("repetitions")).unwrap_or(32).max(2) as usize;
+    let root = runner.layout(prog, "p", false);
+    let first = c16_observe(runner, prog, &root, 0);
+    for k in 1..reps {
+        let o = c16_observe(runner, prog, &root, k);
+        if o != first {
+            println!("REPRODUCED {}", id);
+            println!("{}", crate::props::first_diff(&first, &o));
+            println!("VIOLATION property=C16 replay=<this file>");
+            return 1;
+        }
+    }
+    println!("NOT-REPRODUCED {} ({} repetitions agreed; this replay kind is probabilistic)", id, reps);
     0
+}
+
+pub fn run_c16_processes(tier: &str, batch_seed: u64) -> LayerBResult {
+    let n_programs: u64 = std::env::var("SYLT_SIM_C16_PROGRAMS").ok().and_then(|v| v.parse().ok()).unwrap_or(if tier == "quick" { 160 } else { 2_000 });
+    let reps: usize = std::env::var("SYLT_SIM_C16_REPS").ok().and_then(|v| v.parse().ok()).unwrap_or(if tier == "quick" { 7 } else { 32 });
+    if !Path::new(&sylt_bin()).exists() {
+        let mut cov = J::obj();
+        cov.put("harness.layer_b_binary_missing", J::u(1));
+        return LayerBResult { coverage: cov, violations: vec![("harness/layer-b-binary-missing".into(), J::obj().set("clause", J::s("harness")).set("class", J::s("layer-b-binary-missing")).set("detail", J::s("sylt binary not built")), 1)] };
+    }
+    let t0 = Instant::now();
+    let result: Arc<Mutex<(u64, u64, u64, BTreeMap<String, (J, u64)>)>> = Arc::new(Mutex::new((0, 0, 0, BTreeMap::new())));
+    let threads = 16u64;
+    let mut hs = Vec::new();
+    for t in 0..threads {
+        let result = result.clone();
+        hs.push(std::thread::Builder::new().stack_size(256 << 20).spawn(move || {
+            exec::install_panic_hook();
+            let corpus = crate::corpus::load();
+            let scratch = format!("{}/{}-c16b-t{}", crate::supervisor::scratch_base(), std::process::id(), t);
+            let _ = std::fs::create_dir_all(&scratch);
+            let runner = Runner::new(&scratch);
+            let mut i = t;
+            while i < n_programs {
+                let seed = splitmix64(batch_seed ^ tag("C16-processes") ^ splitmix64(i));
+                let mut stats = crate::props::Stats::default();
+                let (sc, c) = crate::worker::gen_screened(seed, &corpus, Bias::MultiError, &mut stats);
+                let mut files = c.files.clone();
+                for p in &c.io_errors {
+                    files.remove(p);
+                }
+                let prog = Program { files, main: c.main.clone(), label: format!("{}+{}faults", sc.family, sc.faults.len()), std_free: false };
+                let root = runner.layout(&prog, "p", false);
+                let first = c16_observe(&runner, &prog, &root, 0);
+                let mut diverged: Option<String> = None;
+                for k in 1..reps {
+                    let o = c16_observe(&runner, &prog, &root, k);
+                    if o != first {
+                        diverged = Some(crate::props::first_diff(&first, &o));
+                        break;
+                    }
+                }
+                let mut r = result.lock().unwrap();
+                r.0 += 1;
+                r.1 += reps as u64;
+                if first.starts_with("exit=Some(1)") {
+                    r.2 += 1;
+                }
+                if let Some(d) = diverged {
+                    let vv = Violation { prop: "C16".into(), clause: "process".into(), class: "unseeded-hash-or-environment".into(), detail: format!("the same sources compiled by {} processes (real RandomState entropy, varied environment) gave different results: {}", reps, d) };
+                    let mut files = J::obj();
+                    for (k, t) in &prog.files {
+                        files.put(k, J::s(t));
+                    }
+                    let doc = J::obj()
+                        .set("property", J::s("C16"))
+                        .set("clause", J::s(&vv.clause))
+                        .set("class", J::s(&vv.class))
+                        .set("detail", J::s(&vv.detail))
+                        .set("verif_seed", J::u(batch_seed))
+                        .set("index", J::u(i))
+                        .set("minimised", J::Bool(false))
+                        .set("replay_kind", J::s("repeat-N: probabilistic (hash seeds come from OS entropy)"))
+                        .set("layer_b", J::obj().set("files", files).set("main", J::s(&prog.main)).set("repetitions", J::u(reps as u64 * 4)).set("program_label", J::s(&prog.label)));
+                    let e = r.3.entry(vv.id()).or_insert((doc, 0));
+                    e.1 += 1;
+                }
+                drop(r);
+                i += threads;
+            }
+            let _ = std::fs::remove_dir_all(&scratch);
+        }).unwrap());
+    }
+    for h in hs {
+        let _ = h.join();
+    }
+    let r = result.lock().unwrap();
+    let cov = J::obj()
+        .set("add_evaluations", J::u(r.1))
+        .set(
+            "process_level",
+            J::obj()
+                .set("inputs", J::u(r.0))
+                .set("process_runs", J::u(r.1))
+                .set("repetitions_per_input", J::u(reps as u64))
+                .set("inputs_rejected", J::u(r.2))
+                .set("environments", J::u(ENVS.len() as u64))
+                .set("hashing", J::s("real OS entropy per process (hook compiled in, seed unset), plus two fixed seeds via SYLT_VERIF_HASH_SEED"))
+                .set("wall_s", J::Num((t0.elapsed().as_secs_f64() * 10.0).round() / 10.0)),
+        );
+    LayerBResult { coverage: cov, violations: r.3.iter().map(|(k, (d, n))| (k.clone(), d.clone(), *n)).collect() }
 }
